@@ -6,6 +6,11 @@
 // (tree shape, keys, values); the Go side only cuts the frontier of each level into jobs, runs every job in a
 // GnoVM worker process (all cores), de-duplicates the successor fingerprints the Gno program prints and
 // relays the violations it reports.  Model, oracle and all calls into the package are written in Gno.
+//
+// Beside the BFS (which starts from the empty tree and never builds a tree taller than 3) the "deep start states"
+// phase (deep.go; section of the same name in explorer.gno.tmpl) prefills trees of 10-16 keys in several insertion
+// orders and explores every removal sequence up to 3 and every Set/Remove mix up to 2 from each, walking the whole
+// tree after every operation (exact height/size fields through accessors added to a private copy of the package).
 package main
 
 import (
@@ -24,6 +29,7 @@ import (
 	"time"
 
 	gno "github.com/gnolang/gno/gnovm/pkg/gnolang"
+	"github.com/gnolang/gno/gnovm/pkg/packages"
 	"github.com/gnolang/gno/gnovm/pkg/test"
 	"verif/engine/vk"
 )
@@ -41,7 +47,54 @@ func repoRoot() string {
 	return "/repo"
 }
 
-func worker(file string) {
+const avlPath = "gno.land/p/nt/avl/v0"
+
+// The explorer is outside the package, so the unexported height field and the child pointers are read through four
+// one-line accessors that the harness adds to a PRIVATE COPY of the package directory (the .gno sources themselves
+// are copied verbatim from $VERIF_REPO/examples at every run; the GnoVM store is told to load the package from there).
+const accessors = `package avl
+
+// added by /verif/harness/c50 to a private copy of the package: read-only accessors for the structural checks
+func (node *Node) VerifHeight() int  { return int(node.height) }
+func (node *Node) VerifLeft() *Node  { return node.leftNode }
+func (node *Node) VerifRight() *Node { return node.rightNode }
+func (node *Node) VerifFields() (key string, value any, height int, size int, left, right *Node) {
+	return node.key, node.value, int(node.height), node.size, node.leftNode, node.rightNode
+}
+`
+
+func preparePkg(dst string) error {
+	src := filepath.Join(repoRoot(), "examples", filepath.FromSlash(avlPath))
+	os.RemoveAll(dst)
+	if err := os.MkdirAll(dst, 0o755); err != nil {
+		return err
+	}
+	ents, err := os.ReadDir(src)
+	if err != nil {
+		return err
+	}
+	n := 0
+	for _, e := range ents {
+		nm := e.Name()
+		if e.IsDir() || strings.HasSuffix(nm, "_test.gno") || !(strings.HasSuffix(nm, ".gno") || nm == "gnomod.toml") {
+			continue
+		}
+		b, err := os.ReadFile(filepath.Join(src, nm))
+		if err != nil {
+			return err
+		}
+		if err := os.WriteFile(filepath.Join(dst, nm), b, 0o644); err != nil {
+			return err
+		}
+		n++
+	}
+	if n < 3 {
+		return fmt.Errorf("only %d source files found in %s", n, src)
+	}
+	return os.WriteFile(filepath.Join(dst, "zz_verif_accessors.gno"), []byte(accessors), 0o644)
+}
+
+func worker(file, pkgDir string) {
 	src, err := os.ReadFile(file)
 	if err != nil {
 		fmt.Println("WORKER-ERROR\t" + err.Error())
@@ -59,7 +112,7 @@ func worker(file string) {
 		}
 	}()
 	output := test.OutputWithError(out, out)
-	_, st := test.ProdStore(repoRoot(), output, nil)
+	_, st := test.ProdStore(repoRoot(), output, packages.PkgList{{Dir: pkgDir, ImportPath: avlPath, Name: "avl"}})
 	m := gno.NewMachineWithOptions(gno.MachineOptions{
 		Output: output, Store: st, MaxAllocBytes: 3_000_000_000, Context: test.Context("", "main", nil),
 	})
@@ -94,10 +147,16 @@ type jobResult struct {
 	err   string
 }
 
-func runJobs(ctx context.Context, dir string, level int, srcs []string) []jobResult {
+// worker processes running at once: the BFS levels use all cores; the deep phase runs beside them on its own,
+// smaller allowance (the early BFS levels are narrow and mostly VM start-up)
+var (
+	semBFS  = make(chan struct{}, runtime.GOMAXPROCS(0))
+	semDeep = make(chan struct{}, max(2, runtime.GOMAXPROCS(0)*3/4))
+)
+
+func runJobs(ctx context.Context, sem chan struct{}, dir string, tag string, level int, srcs []string) []jobResult {
 	res := make([]jobResult, len(srcs))
 	self, _ := os.Executable()
-	sem := make(chan struct{}, runtime.GOMAXPROCS(0))
 	var wg sync.WaitGroup
 	for i := range srcs {
 		wg.Add(1)
@@ -109,12 +168,12 @@ func runJobs(ctx context.Context, dir string, level int, srcs []string) []jobRes
 				res[i].err = "budget"
 				return
 			}
-			file := filepath.Join(dir, fmt.Sprintf("l%02d_j%03d.gno", level, i))
+			file := filepath.Join(dir, fmt.Sprintf("%s%02d_j%03d.gno", tag, level, i))
 			if err := os.WriteFile(file, []byte(srcs[i]), 0o644); err != nil {
 				res[i].err = err.Error()
 				return
 			}
-			cmd := exec.CommandContext(ctx, self, "-worker", file)
+			cmd := exec.CommandContext(ctx, self, "-worker", file, filepath.Join(dir, "avlpkg"))
 			cmd.Env = append(os.Environ(), "GOMAXPROCS=2", "GOMEMLIMIT=3GiB")
 			var ob, eb bytes.Buffer
 			cmd.Stdout, cmd.Stderr = &ob, &eb
@@ -138,6 +197,33 @@ func runJobs(ctx context.Context, dir string, level int, srcs []string) []jobRes
 	return res
 }
 
+type deepSpec struct {
+	dkeys, starts []string
+	mixDepth      int
+	fullReadDepth int
+}
+
+func fillTemplate(keys, paths []string, expand bool, d *deepSpec) string {
+	s := tmpl
+	if d == nil {
+		// BFS job: the deep section is replaced by stubs (it would only add VM start-up time to every BFS job)
+		d = &deepSpec{}
+		i, j := strings.Index(s, "//DEEP-BEGIN"), strings.Index(s, "//DEEP-END")
+		s = s[:i] + "var dStates, dLen int\n\nfunc deepHist() string { return \"\" }\n\nfunc deepStart(spec string) {}\n\n" + s[j:]
+	}
+	for _, kv := range [][2]string{
+		{"/*KEYS*/", gnoStrings(keys)}, {"/*PATHS*/", gnoStrings(paths)}, {"/*EXPAND*/", strconv.FormatBool(expand)},
+		{"/*DEEP*/", strconv.FormatBool(len(d.starts) > 0)}, {"/*DKEYS*/", gnoStrings(d.dkeys)}, {"/*STARTS*/", gnoStrings(d.starts)},
+		{"/*MIXDEPTH*/", strconv.Itoa(d.mixDepth)}, {"/*FULLREADDEPTH*/", strconv.Itoa(d.fullReadDepth)},
+	} {
+		if n := strings.Count(s, kv[0]); n > 1 || (n == 0 && len(d.starts) > 0) {
+			panic("template placeholder " + kv[0])
+		}
+		s = strings.Replace(s, kv[0], kv[1], 1)
+	}
+	return s
+}
+
 func gnoStrings(ss []string) string {
 	q := make([]string, len(ss))
 	for i, s := range ss {
@@ -147,12 +233,12 @@ func gnoStrings(ss []string) string {
 }
 
 func main() {
-	if len(os.Args) == 3 && os.Args[1] == "-worker" {
-		worker(os.Args[2])
+	if len(os.Args) == 4 && os.Args[1] == "-worker" {
+		worker(os.Args[2], os.Args[3])
 		return
 	}
 	r = vk.New("model_checking")
-	r.SetBudget(75*time.Second, 20*time.Minute)
+	r.SetBudget(85*time.Second, 20*time.Minute)
 
 	// quick: 5 keys -> the reachable state space is finite and small enough to be explored to its fixpoint
 	// (the depth bound is never reached); thorough: 7 keys, depth bound / budget.
@@ -170,8 +256,57 @@ func main() {
 	os.RemoveAll(dir)
 	os.MkdirAll(dir, 0o755)
 
+	if err := preparePkg(filepath.Join(dir, "avlpkg")); err != nil {
+		r.HarnessError("private copy of %s: %v", avlPath, err)
+	}
+
 	ctx, cancel := context.WithDeadline(context.Background(), time.Now().Add(r.Budget))
 	defer cancel()
+
+	// deep start states: runs in the background on the cores the narrow early BFS levels leave idle
+	// quick: 10,11,12,14,16 keys; every removal sequence up to 3 from the 10..12-key trees, up to 2 from the larger ones
+	sizes, remDepths := []int{10, 11, 12, 14, 16}, []int{3, 3, 3, 2, 2}
+	mixDepth, fullReadDepth, deepJobs := 2, 1, 12
+	if r.Thorough() {
+		sizes, remDepths = nil, nil
+		for n := 8; n <= 24; n++ {
+			sizes = append(sizes, n)
+			switch {
+			case n <= 11:
+				remDepths = append(remDepths, 4)
+			case n <= 20:
+				remDepths = append(remDepths, 3)
+			default:
+				remDepths = append(remDepths, 2)
+			}
+		}
+		deepJobs = 6 * runtime.GOMAXPROCS(0)
+	}
+	if v := os.Getenv("C50_DEEP_SIZES"); v != "" { // debugging aid: comma separated sizes (removal depth 3), "none" = skip the phase
+		sizes, remDepths = nil, nil
+		for _, f := range strings.Split(v, ",") {
+			if n, err := strconv.Atoi(f); err == nil {
+				sizes, remDepths = append(sizes, n), append(remDepths, 3)
+			}
+		}
+	}
+	if os.Getenv("C50_LIST_STARTS") != "" { // debugging aid
+		for i, n := range sizes {
+			for _, st := range orderFamilies(n, r.Thorough()) {
+				st.remDepth = remDepths[i]
+				fmt.Println(st.spec())
+			}
+		}
+		return
+	}
+	deepCh := make(chan deepResult, 1)
+	go func() {
+		if len(sizes) == 0 {
+			deepCh <- deepResult{}
+			return
+		}
+		deepCh <- runDeep(ctx, dir, sizes, remDepths, mixDepth, fullReadDepth, deepJobs)
+	}()
 
 	seen := map[string]bool{"": true} // fingerprint of the empty tree is ""
 	r.Distinct("fp:")
@@ -179,7 +314,7 @@ func main() {
 	var states, transitions, checks int64
 	perLevel := []map[string]int{}
 	completeDepth := -1
-	type viol struct{ path, check, detail string }
+	type viol = violation
 	var viols []viol
 	harnessErr := ""
 
@@ -187,7 +322,7 @@ levels:
 	for d := 0; d <= depth; d++ {
 		expand := d < depth
 		// cut the frontier into jobs: enough jobs for all cores, not too small (VM start-up ~0.5 s)
-		njobs := runtime.GOMAXPROCS(0) * 2
+		njobs := runtime.GOMAXPROCS(0) // one wave: a job is mostly VM start-up
 		if njobs > len(frontier) {
 			njobs = len(frontier)
 		}
@@ -200,12 +335,9 @@ levels:
 			for i := j; i < len(frontier); i += njobs {
 				part = append(part, frontier[i])
 			}
-			s := strings.Replace(tmpl, "/*KEYS*/", gnoStrings(keys), 1)
-			s = strings.Replace(s, "/*PATHS*/", gnoStrings(part), 1)
-			s = strings.Replace(s, "/*EXPAND*/", strconv.FormatBool(expand), 1)
-			srcs[j] = s
+			srcs[j] = fillTemplate(keys, part, expand, nil)
 		}
-		results := runJobs(ctx, dir, d, srcs)
+		results := runJobs(ctx, semBFS, dir, "l", d, srcs)
 		lv := map[string]int{"depth": d, "frontier_states": len(frontier), "jobs": njobs}
 		type succ struct{ path, fp string }
 		var succs []succ
@@ -281,30 +413,73 @@ levels:
 			break
 		}
 	}
+	deepRes := <-deepCh
+	if harnessErr == "" {
+		harnessErr = deepRes.err
+	}
 	if harnessErr != "" {
 		r.HarnessError("%s", harnessErr)
 	}
+	if deepRes.capped {
+		r.MarkCapped()
+	}
+	bfsStates, bfsTransitions := states, transitions
+	states += deepRes.states
+	transitions += deepRes.transitions
+	checks += deepRes.checks
+	viols = append(viols, deepRes.viols...)
 	r.EvalN(checks)
 	// violations: only the shallowest BFS level at which any occur is reported (deeper levels are not explored:
 	// every deeper history extends a violating one); grouped by signature (the check without its arguments), at
 	// most 3 histories per signature in canonical order become VIOLATION keys.
-	sort.Slice(viols, func(i, j int) bool {
-		if len(viols[i].path) != len(viols[j].path) {
-			return len(viols[i].path) < len(viols[j].path)
+	// BFS histories first (shortest, then lexicographic); deep-phase histories by number of operations, then size of
+	// the start tree, then text
+	rank := func(v viol) (int, int, int) {
+		if !strings.HasPrefix(v.path, "deep ") {
+			return 0, len(v.path), 0
 		}
-		if viols[i].path != viols[j].path {
+		pre, ops, _ := strings.Cut(v.path, " ops=")
+		n := 0
+		if ops != "(none)" {
+			n = strings.Count(ops, ";") + 1
+		}
+		return 1, n, strings.Count(pre, ",")
+	}
+	sort.SliceStable(viols, func(i, j int) bool {
+		a1, a2, a3 := rank(viols[i])
+		b1, b2, b3 := rank(viols[j])
+		switch {
+		case a1 != b1:
+			return a1 < b1
+		case a2 != b2:
+			return a2 < b2
+		case a3 != b3:
+			return a3 < b3
+		case viols[i].path != viols[j].path:
 			return viols[i].path < viols[j].path
 		}
 		return viols[i].check < viols[j].check
 	})
+	violStarts := map[string]int{} // deep phase: violating observations per start tree
 	perSig := map[string]int{}
+	reported := map[string]int{}
 	for _, v := range viols {
 		sig := v.check
 		if i := strings.IndexAny(sig, " ("); i > 0 {
 			sig = sig[:i]
 		}
+		if strings.HasPrefix(v.path, "deep ") {
+			sig = "deep:" + sig
+			st := strings.Fields(v.path)[1]
+			violStarts[st]++
+			if violStarts[st] > 1 { // one history per start tree: the reported keys show different trees
+				perSig[sig]++
+				continue
+			}
+		}
 		perSig[sig]++
-		if perSig[sig] > 3 || len(perSig) > 12 {
+		reported[sig]++
+		if reported[sig] > 3 || len(perSig) > 12 {
 			continue
 		}
 		r.Violation(fmt.Sprintf("history=%s :: %s", v.path, v.check), map[string]any{"history": v.path, "check": v.check, "detail": v.detail, "keys": keys})
@@ -316,14 +491,21 @@ levels:
 	r.Assumptions = []string{
 		"keys are drawn from the menu; Iterate bounds from the same menu (\"\" = unbounded, as documented)",
 		"reference semantics = package documentation: Iterate [start,end), ReverseIterate [start,end] descending, negative offset clamps to 0, out-of-range GetByIndex panics",
-		"balance and size/inner-key invariants are checked on the real shape observed through TraverseInRange(leavesOnly=false); the unexported height field itself is not observable from another package",
+		"the explorer runs against a private verbatim copy of the package directory to which the harness adds one file with three read-only accessors (height field, left child, right child); nothing else of the package is changed",
+		"the Go mirror of the rebalancing algorithm only produces the coverage histogram rebalancing_cases_by_go_mirror (no-op operations skipped); it is not an oracle",
 		"return value of the *ByOffset iterators is not specified and not compared",
 	}
-	exhaustive := completeDepth >= depth || len(frontier) == 0
-	r.Finish(fmt.Sprintf("BFS (written in Gno, executed by the GnoVM) over all histories of {Set(k,1),Set(k,2),Remove(k)} x %d keys up to depth %d with de-duplication on (shape,keys,values); every distinct state: all read APIs + all iterators over all bounds vs sorted-slice model, AVL balance, size fields, inner keys, persistence of old roots", len(keys), depth),
+	exhaustive := (completeDepth >= depth || len(frontier) == 0) && !deepRes.capped
+	deepCov := map[string]any{
+		"sizes": deepRes.sizes, "start_trees": deepRes.starts, "jobs": deepRes.jobs, "removal_sequences_up_to": remDepths, "set_remove_mixes_up_to": mixDepth, "full_read_api_up_to_depth": fullReadDepth,
+		"states": deepRes.states, "transitions": deepRes.transitions, "checks": deepRes.checks,
+		"states_by_size_and_height": deepRes.heightBySize, "rebalancing_cases_by_go_mirror": deepRes.mirror,
+	}
+	r.Finish(fmt.Sprintf("BFS (written in Gno, executed by the GnoVM) over all histories of {Set(k,1),Set(k,2),Remove(k)} x %d keys up to depth %d with de-duplication on (shape,keys,values); every distinct state: all read APIs + all iterators over all bounds vs sorted-slice model, AVL balance, size fields, inner keys, persistence of old roots, exact height fields.  Deep start states: trees of %v keys prefilled in 7 insertion orders each (thorough 8), from every one all sequences of removals of present keys up to length %v (per size) and all Set/Remove mixes up to length %d (DFS on persistent roots); after every operation, prefill insertions included, the whole tree is walked (height and size fields exact, balance, inner keys, leaves == model); states up to %d operations from a start: Get/Has/rank for every key of the universe, GetByIndex, full and ranged Iterate/ReverseIterate and TraverseByOffset vs the model, deeper states: Size and Get/Has/rank/GetByIndex of the key of the last operation", len(keys), depth, deepRes.sizes, remDepths, mixDepth, fullReadDepth),
 		exhaustive, map[string]any{
 			"states": states, "transitions": transitions, "traces_validated_against_impl": transitions,
 			"depth": depth, "complete_depth": completeDepth, "levels": perLevel, "api_checks": checks,
-			"keys": keys, "ops_per_state": nops, "violating_observations": len(viols), "violation_signatures": perSig,
+			"bfs_states": bfsStates, "bfs_transitions": bfsTransitions, "deep": deepCov,
+			"keys": keys, "ops_per_state": nops, "violating_observations": len(viols), "violation_signatures": perSig, "deep_violating_observations_by_start": violStarts,
 		})
 }
